@@ -17,9 +17,9 @@ from .canon import to_canon, ceq, render, renderable, show, shape_class, from_js
 LEVEL = "exploration"
 RULE = ("case = adverb (each, each-2, each-left, each-right, each-pair, each-index, over, over-neutral, scan-over, "
         "scan-over-neutral, iterate, scan-iterating, converge, while, scan-converging, scan-while) x verb form (operators "
-        "+ - * % & | , = < > ^ ! and monadic - # , | * ~, equivalent / non-commutative / non-associative lambdas, a named "
+        "+ - * % & | , = < > ^ ! and monadic - # , | * ~ _, equivalent / non-commutative / non-associative lambdas, a named "
         "function, a projection, Python callables) x operands (atoms, strings, vectors of length 0..5, matrices, nested lists, "
-        "dictionaries), plus all two-adverb chains whose second adverb is monadic; a case is judged only when every plain "
+        "dictionaries), plus all two-adverb chains whose second adverb is monadic (first adverb each, over, scan, each-pair, each-index; and converge / scan-converging of a converging verb followed by each); a case is judged only when every plain "
         "application of its expansion returns a value; non-trivial = the operand has length>=2 or rank>=2 or is a string / "
         "dictionary and the verb is applied at least twice; distinct by (adverb(s), verb form, operands)")
 ASSUMPTIONS = [
@@ -59,12 +59,13 @@ class Undef(Exception):
 
 # verb forms: (kind, text); kind 'op1'/'op2' operator, 'fn1'/'fn2' function text or name
 MONADIC = [('op1', '-'), ('op1', '#'), ('op1', ','), ('op1', '|'), ('op1', '*'), ('op1', '~'),
-           ('fn1', '{x*2}'), ('fn1', '{x,x}'), ('fn1', '{-x}'), ('fn1', 'nf1'), ('fn1', 'py1'), ('fn1', '{#x}')]
+           ('fn1', '{x*2}'), ('fn1', '{x,x}'), ('fn1', '{-x}'), ('fn1', 'nf1'), ('fn1', 'py1'), ('fn1', '{#x}'), ('op1', '_')]
 DYADIC = [('op2', '+'), ('op2', '-'), ('op2', '*'), ('op2', '%'), ('op2', '&'), ('op2', '|'), ('op2', ','), ('op2', '='),
           ('op2', '<'), ('op2', '>'), ('op2', '^'), ('op2', '!'),
           ('fn2', '{x+y}'), ('fn2', '{x-y}'), ('fn2', '{(2*x)+y}'), ('fn2', '{x,,y}'), ('fn2', '{x%y}'), ('fn2', '{x|y}'),
           ('fn2', 'nf2'), ('fn2', 'pj'), ('fn2', 'py2')]
-CONV = [('fn1', '{_x%2}'), ('op1chain', ',/'), ('fn1', '{:[x>10;x;x+3]}'), ('fn1', '{x|3}'), ('fn1', '{x&2}')]
+CONV = [('fn1', '{_x%2}'), ('op1chain', ',/'), ('fn1', '{:[x>10;x;x+3]}'), ('fn1', '{x|3}'), ('fn1', '{x&2}'), ('op1', '_'), ('op1', '-'),
+        ('fn1', '{_x}')]
 WHILE = [(('fn1', '{x<20}'), ('fn1', '{x*2}')), (('fn1', '{x<10}'), ('fn1', '{x+3}')), (('fn1', '{(#x)<4}'), ('fn1', '{1,x}')),
          (('fn1', '{x;0}'), ('fn1', '{x}'))]
 
@@ -520,7 +521,8 @@ def P(c):
 
 def build(b):
     """b = ('mon', adverb, verbidx, operand) | ('dy', adverb, verbidx, a, operand) | ('it', adverb, verbidx, n, operand)
-           | ('conv', adverb, convidx, operand) | ('while', adverb, widx, operand) | ('chain', adv1, verbidx, adv2, operand)"""
+           | ('conv', adverb, convidx, operand) | ('while', adverb, widx, operand) | ('chain', adv1, verbidx, adv2, operand)
+           | ('cchain', adv1 in :~ \\~, convidx, adv2, operand)"""
     kind = b[0]
     if kind == 'mon':
         _, adv, vi, a = b
@@ -559,6 +561,13 @@ def build(b):
         return dict(adverb=adv1 + adv2, verbkind=v[0] + ':' + v[1], operands=[a], text=v[1] + adv1 + adv2 + P(a), build=b, chain=True,
                     vartext=('opnd::' + P(a), v[1] + adv1 + adv2 + 'opnd'),
                     expand=lambda: MONADIC_ADVERBS[adv2](g, a))
+    if kind == 'cchain':
+        _, adv1, ci, adv2, a = b
+        v = CONV[ci]
+        g = lambda x: _unset(MONADIC_ADVERBS[adv1](v, x))          # verb + Converge / Scan-Converging is the new monad
+        return dict(adverb=adv1 + adv2, verbkind=v[0] + ':' + v[1], operands=[a], text=v[1] + adv1 + adv2 + P(a), build=b, chain=True,
+                    vartext=('opnd::' + P(a), v[1] + adv1 + adv2 + 'opnd'),
+                    expand=lambda: MONADIC_ADVERBS[adv2](g, a))
     raise ValueError(b)
 
 
@@ -566,6 +575,11 @@ def _unset(r):
     if isinstance(r, tuple) and r and r[0] == 'multiset':
         raise Undef()
     return r
+
+
+CCHAIN_OPERANDS = [L(R(1.5), R(2.5)), L(I(0), I(0)), L(I(1), I(7), I(12)), L(R(0.5), R(-1.5), R(2.0)), L(),
+                   L(L(I(1), I(2)), L(I(3), I(4))), L(L(R(0.5), R(1.5)), L(R(2.5), R(3.5))), L(L(I(0), I(0)), L(I(0), I(0))),
+                   L(I(4), L(I(11), R(2.5)))]
 
 
 def all_builds():
@@ -594,12 +608,16 @@ def all_builds():
         for wi in range(len(WHILE)):
             for a in [I(0), I(1), I(3), I(25), L(I(1))]:
                 yield ('while', adv, wi, a)
-    for adv1 in ("'", '/', '\\', ":'"):
+    for adv1 in ("'", '/', '\\', ":'", "@'"):
         verbs = MONADIC if VERB_ARITY[adv1] == 1 else DYADIC
         for vi in range(len(verbs)):
             for adv2 in ("'", ':~', '\\~'):      # the verb-adverb combination is a monad: only adverbs of monads may follow
                 for a in MATS + NESTED + [L(L(I(1)), L(I(2)), L(I(3))), L(S('ab'), S('cd'))]:
                     yield ('chain', adv1, vi, adv2, a)
+    for adv1 in (':~', '\\~'):                 # Converge / Scan-Converging first, then Each over the members
+        for ci in range(len(CONV)):
+            for a in CCHAIN_OPERANDS:
+                yield ('cchain', adv1, ci, "'", a)
 
 
 def enum_shard(idx, nshards):
@@ -624,7 +642,9 @@ def hyp_shard(seed_value, n):
 
     @st.composite
     def builds(draw):
-        kind = draw(st.sampled_from(['mon', 'mon', 'dy', 'it', 'chain']))
+        kind = draw(st.sampled_from(['mon', 'mon', 'dy', 'it', 'chain', 'chain', 'cchain']))
+        if kind == 'cchain':
+            return ('cchain', draw(st.sampled_from([':~', '\\~'])), draw(st.integers(0, len(CONV) - 1)), "'", draw(opnd))
         if kind == 'mon':
             adv = draw(st.sampled_from(mon_advs))
             verbs = MONADIC if VERB_ARITY[adv] == 1 else DYADIC
@@ -634,7 +654,7 @@ def hyp_shard(seed_value, n):
             return ('dy', adv, draw(st.integers(0, len(DYADIC) - 1)), draw(opnd), draw(opnd))
         if kind == 'it':
             return ('it', draw(st.sampled_from([':*', '\\*'])), draw(st.integers(0, len(MONADIC) - 1)), draw(st.integers(0, 4)), draw(opnd))
-        adv1 = draw(st.sampled_from(["'", '/', '\\', ":'"]))
+        adv1 = draw(st.sampled_from(["'", '/', '\\', ":'", "@'"]))
         verbs = MONADIC if VERB_ARITY[adv1] == 1 else DYADIC
         return ('chain', adv1, draw(st.integers(0, len(verbs) - 1)), draw(st.sampled_from(["'", ':~', '\\~'])), draw(opnd))
 
